@@ -610,6 +610,10 @@ func (w *World) checkRequests() {
 		default:
 		}
 		verified := w.haves[c.piece] > c.havesAt
+		if !closed && t.Pieces.Complete(c.piece) {
+			// whenever it was handed out: nobody will ever close it now
+			w.problem("C10", "C10/lost-wakeup/piece-complete", "a consumer holds an open completion channel for piece %d although the piece is verified and readable: it would wait for ever", c.piece)
+		}
 		if len(w.readers) > 0 {
 			// real Readers hold registrations the model does not know: only
 			// the verification clause is judged
